@@ -60,7 +60,7 @@ func outcome(f *xlib.File, b *ast.BlockStmt) string {
 func main() {
 	bl := xlib.Parse("src/core/build_label.go")
 	bt := xlib.Parse("src/core/build_target.go")
-	out := xlib.NewOut("C33", bl.Path, bt.Path)
+	out := xlib.NewOut("C33", bl.Path, bt.Path, "src/parse/asp/builtins.go", "src/parse/asp/config.go", "src/parse/asp/targets.go")
 
 	// ---- BuildLabel.CanSee
 	cs := bl.Func("BuildLabel.CanSee")
@@ -170,5 +170,81 @@ func main() {
 		csteps = append(csteps, "return "+bt.Src(r.Results[0]))
 	}
 	out.Def("checkSteps", "List String", xlib.LeanStrList(csteps))
+
+	// ---- the declared restriction: defaultFromConfig's "not set" test and which buildRule arguments go through it
+	bi := xlib.Parse("src/parse/asp/builtins.go")
+	dfc := bi.Func("defaultFromConfig")
+	dps := paramNames(dfc)
+	if len(dps) != 3 {
+		xlib.Unreadable("defaultFromConfig: expected (config, arg, name)")
+	}
+	rd := renamer{map[string]string{dps[0]: "CONFIG", dps[1]: "ARG", dps[2]: "NAME"}}
+	unset := ""
+	if is, ok := dfc.Body.List[0].(*ast.IfStmt); ok {
+		unset = rd.apply(bi.Src(is.Cond))
+	}
+	switch {
+	case unset == "ARG == nil || ARG == None":
+	case strings.Contains(unset, "IsTruthy"):
+	default:
+		xlib.Unreadable("defaultFromConfig: unknown not-set test %q", unset)
+	}
+	out.Def("defaultUnsetTest", "String", xlib.LeanStr(unset))
+	var through []string
+	br := bi.Func("buildRule")
+	ast.Inspect(br.Body, func(nd ast.Node) bool {
+		as, ok := nd.(*ast.AssignStmt)
+		if !ok || len(as.Rhs) != 1 {
+			return true
+		}
+		c, ok := as.Rhs[0].(*ast.CallExpr)
+		if !ok || bi.Src(c.Fun) != "defaultFromConfig" || len(c.Args) != 3 {
+			return true
+		}
+		lhs, a1 := bi.Src(as.Lhs[0]), bi.Src(c.Args[1])
+		key := bi.Src(c.Args[2])
+		if lhs != a1 {
+			through = append(through, "MISMATCH "+lhs+" <- "+a1)
+		} else {
+			through = append(through, strings.TrimSuffix(strings.TrimPrefix(lhs, "args["), "]")+"="+strings.Trim(key, "\""))
+		}
+		return true
+	})
+	aligned := true
+	for _, x := range through {
+		if strings.HasPrefix(x, "MISMATCH") {
+			aligned = false
+		}
+	}
+	out.Def("buildRuleDefaults", "List String", xlib.LeanStrList(through))
+	out.Def("buildRuleDefaultsAligned", "Bool", xlib.LeanBool(aligned))
+	cf := xlib.Parse("src/parse/asp/config.go")
+	var baseDefaults []string
+	ast.Inspect(cf.AST, func(nd ast.Node) bool {
+		as, ok := nd.(*ast.AssignStmt)
+		if !ok || len(as.Lhs) != 1 || len(as.Rhs) != 1 {
+			return true
+		}
+		l := cf.Src(as.Lhs[0])
+		if l == `base["DEFAULT_VISIBILITY"]` || l == `base["DEFAULT_TESTONLY"]` {
+			baseDefaults = append(baseDefaults, strings.TrimSuffix(strings.TrimPrefix(l, `base["`), `"]`)+"="+cf.Src(as.Rhs[0]))
+		}
+		return true
+	})
+	out.Def("configDefaults", "List String", xlib.LeanStrList(baseDefaults))
+	tg := xlib.Parse("src/parse/asp/targets.go")
+	pt := tg.Func("populateTarget")
+	visCond := ""
+	ast.Inspect(pt.Body, func(nd ast.Node) bool {
+		if is, ok := nd.(*ast.IfStmt); ok && is.Init != nil && strings.Contains(tg.Src(is.Init), "visibilityBuildRuleArgIdx") && visCond == "" {
+			init := ""
+			if is.Init != nil {
+				init = tg.Src(is.Init) + "; "
+			}
+			visCond = init + tg.Src(is.Cond)
+		}
+		return true
+	})
+	out.Def("populateVisibilityCond", "String", xlib.LeanStr(visCond))
 	out.Write()
 }
